@@ -288,7 +288,10 @@ def run_case(case):
         bad("forward-is-quantized", "forward value %r at x=%r is not a code" % (
             float(y.reshape(-1)[i]), float(x.reshape(-1)[i])), tag)
     d1 = np.abs(g1.astype(np.float64) - g)
-    lim = tol * np.maximum(np.abs(g), 1e-3) + 1e-7
+    # transcendental surrogates (tol > 0): 1 - tanh(x)^2 is formed in float32 from a tanh that is a few ulps off, so the
+    # derivative carries an ABSOLUTE error of a few ulps of 1 however small it is (seen at 8 bits, x = -6.2: 1.56e-5
+    # against 1.53e-5)
+    lim = tol * np.maximum(np.abs(g), 1e-3) + (6e-7 if tol else 1e-7)
     wrong = keep & (d1 > lim)
     if wrong.any():
       i = int(np.flatnonzero(wrong.reshape(-1))[0])
